@@ -104,6 +104,7 @@ def L(n):
 
 
 IDOCS = [
+    lambda a, t: '\\c{\\begin{e}' + a + '\\end{e}}' + t + '\\section{\\begin{center}' + a + '\\end{center}}',
     lambda a, t: '$\\left\\lvert ' + a + '\\right\\| ' + t + '\\right\\rvert\\left\\langle x\\right\\rangle\\right\\}$',
     lambda a, t: '$' + a + '\\cup b\\in c' + t + '\\infty\\cap$\\noindent ' + a,
     lambda a, t: '\\textbf ' + a + t + '\\label ' + a + '\\section[o] s',
@@ -167,6 +168,11 @@ def c17_isolation(ai, bi):
         TexSoup(A, skip_envs=('e', 'itemize', 'c'))       # options of one parse must not leak into the next
     except Exception:
         pass
+    for bad in ('\\newcommand{\\foo}{\\textbf{x}', '$a', '\\begin{e}\\item', '{\\def\\x', '\\begin{verbatim}', '\\renewcommand{\\y}[1]{\\begin{z}', '\\left'):
+        try:
+            TexSoup(bad)            # a failed parse must not leave anything behind either
+        except Exception:
+            pass
     a = TexSoup(A)
     edit_all(a)
     b2 = TexSoup(B)
